@@ -59,9 +59,14 @@ impl Counters {
     pub fn get(&self, key: &str) -> u64 {
         self.0.iter().find(|i| i.0 == key).map(|i| i.1).unwrap_or(0)
     }
+    /// Sums counters; keys starting with `probe_max_` are maxima.
     pub fn merge(&mut self, other: &Counters) {
         for (k, v) in &other.0 {
-            self.add(k, *v);
+            if k.starts_with("probe_max_") {
+                self.max_into(k, *v);
+            } else {
+                self.add(k, *v);
+            }
         }
     }
     pub fn max_into(&mut self, key: &'static str, v: u64) {
